@@ -40,6 +40,22 @@ def op_prop(name):
     return "C04"
 
 
+RELOAD_PROPS = {"WrongHeader": {"C02", "C01"}, "WrongVersionField": {"C02", "C01"},
+                "WriterDisagreesWithSchemaMapping": {"C02", "C01"}, "ReaderDisagreesWithSchemaMapping": {"C02"},
+                "ReferenceIsACopy": {"C09", "C01"}, "LoadedNotDeepEq": {"C01", "C18"}, "ResaveDiffers": {"C01"}}
+
+
+def result_props(op, obs):
+    """which properties a wrong result of this operation speaks about"""
+    if op["name"] == "reload":
+        exc = obs.get("exc") if isinstance(obs, dict) else None
+        # any other exception: a file written by save from a self-contained IR was not accepted
+        return set(RELOAD_PROPS.get(exc, {"C01", "C17"}))
+    if op["name"] == "loadfault":
+        return {"C09", "C17"} if op.get("fault") in ("dangling", "ill-typed") else {"C17"}
+    return {op_prop(op["name"])}
+
+
 def skey(st):
     return json.dumps(st, sort_keys=True, separators=(",", ":"))
 
@@ -248,7 +264,7 @@ class Walker:
             self._mark(cur, target)
             bad = False
             if obs_res != exp_res:
-                self.violations.append(Violation("result", {op_prop(op["name"])}, args_of(op), exp_res, obs,
+                self.violations.append(Violation("result", result_props(op, obs), args_of(op), exp_res, obs,
                                                  [args_of(o) for o in history]))
                 bad = True
             exp_state = g.full[target[1]]
